@@ -13,7 +13,7 @@
      x<texthex>                                       text node
      c ( x<hex>* )                                    CDATA node
      t<langid> ( node )                               TREE node: an embedded document of that language (root = node)
-   ops:  N<i>      wbxml_encoder_encode_node(pool[i])
+   ops:  N<i>      wbxml_encoder_encode_node(pool[i])      (N and M: pool[i] is first REBUILT from its description, see rebuild())
          M<i>      wbxml_encoder_encode_node_with_elt_end(pool[i], FALSE)
          S<i>,<c>  wbxml_encoder_encode_raw_elt_start(pool[i], c)
          F<i>,<c>  wbxml_encoder_encode_raw_elt_end(pool[i], c)
@@ -28,6 +28,7 @@
 
 #define MAXP 64
 static WBXMLTreeNode *pool[MAXP];
+static char *partcopy[MAXP];     /* the description of each pool node, to rebuild it */
 static int npool;
 
 static char *tokv[4096];
@@ -118,15 +119,32 @@ static void build_pool(const WBXMLLangEntry *lang, char *spec) {
     int np = split(spec, '/', parts, MAXP), i;
     npool = 0;
     for (i = 0; i < np; i++) {
+        partcopy[i] = strdup(parts[i]);
         ntok = split(parts[i], '.', tokv, 4096);
         tpos = 0;
         pool[npool++] = parse_node_spec(lang);
     }
 }
 
+/* The encoder rewrites the text nodes it is given IN PLACE (parse_text: wbxml_buffer_strip_blanks(node->content) when
+   remove_text_blanks is set; "\n" -> "\r\n" inside a SyncML CDATA section), so a pool object that has been encoded once
+   is no longer the node the pool description says.  The property is about node VALUES: before every encode_node the
+   pool entry is rebuilt from its description, so that each N/M operation encodes the described node.  (Raw element
+   start/end do not modify the node.) */
+static void rebuild(const WBXMLLangEntry *lang, int k) {
+    char *tmp;
+    if (k < 0 || k >= npool || partcopy[k] == NULL) return;
+    if (pool[k] != NULL) wbxml_tree_node_destroy_all(pool[k]);
+    tmp = strdup(partcopy[k]);
+    ntok = split(tmp, '.', tokv, 4096);
+    tpos = 0;
+    pool[k] = parse_node_spec(lang);
+    free(tmp);
+}
+
 static void free_pool(void) {
     int i;
-    for (i = 0; i < npool; i++) wbxml_tree_node_destroy_all(pool[i]);
+    for (i = 0; i < npool; i++) { if (pool[i] != NULL) wbxml_tree_node_destroy_all(pool[i]); free(partcopy[i]); partcopy[i] = NULL; }
     npool = 0;
 }
 
@@ -178,6 +196,7 @@ static void run_flow(int langid, char out, int xmlgen, char *poolspec, char *ops
         int err = 0, k = atoi(o + 1), c = 0;
         char *comma = strchr(o, ',');
         if (comma) c = atoi(comma + 1);
+        if ((o[0] == 'N' || o[0] == 'M') && k >= 0 && k < npool) rebuild(lang, k);
         if (o[0] != 'D' && o[0] != 'G' && (k < 0 || k >= npool || pool[k] == NULL)) err = -1;
         else if (o[0] == 'N') err = (int) wbxml_encoder_encode_node(e, pool[k]);
         else if (o[0] == 'M') err = (int) wbxml_encoder_encode_node_with_elt_end(e, pool[k], FALSE);
